@@ -74,16 +74,21 @@ MStep(s) ==
   \/ /\ s.pt = "join" /\ M_Join
      /\ IF mpc' = "returned"
         THEN /\ HasEv(s, "mt_return")
-             /\ \A i \in 1 .. Len(s.evs) : s.evs[i].ev = "mt_return" =>
-                   /\ s.evs[i].outcome = result'
-                   /\ s.evs[i].got = got
-                   /\ s.evs[i].prefix_ok = TRUE
+             /\ \A i \in 1 .. Len(s.evs) : s.evs[i].ev = "mt_return" => s.evs[i].outcome = result'
         ELSE ~HasEv(s, "mt_return")
+
+(* After every thread has finished the harness reads the sink.              *)
+FinalStep(s) ==
+  /\ s.pt = "final" /\ mpc = "returned"
+  /\ \A b \in Blocks : pc[b] = "done"
+  /\ s.got = got /\ s.prefix_ok = TRUE
+  /\ UNCHANGED vars
 
 TraceNext ==
   /\ l <= Len(Rec)
   /\ LET s == Rec[l] IN
        \/ Config(s)
+       \/ (FinalStep(s) /\ UNCHANGED sid)
        \/ (s.t = "b" /\ BStep(s) /\ UNCHANGED sid)
        \/ (s.t = "main" /\ MStep(s) /\ UNCHANGED sid)
        \/ (s.t = "canc" /\ s.pt = "start" /\ C_Cancel /\ UNCHANGED sid)
